@@ -6483,21 +6483,18 @@ impl<Front: SocketHandler> ConnectionH2<Front> {
                     let fully_completed =
                         stream.back_received_end_of_stream && stream.front.is_terminated();
                     if !fully_completed && !self.rst_sent.contains(&id) {
-                        let kawa = &mut self.zero;
-                        let mut frame = [0; 13];
-                        if let Ok((_, _size)) =
-                            serializer::gen_rst_stream(&mut frame, id, H2Error::Cancel)
-                        {
-                            let buf = kawa.storage.space();
-                            if buf.len() >= frame.len() {
-                                buf[..frame.len()].copy_from_slice(&frame);
-                                kawa.storage.fill(frame.len());
-                                incr!(names::h2::FRAMES_TX_RST_STREAM);
-                                count!(metric_for_rst_stream_sent(H2Error::Cancel), 1);
-                                self.readiness.arm_writable();
-                                self.rst_sent.insert(id);
-                            }
-                        }
+                        // Queue the RST_STREAM with the other pending control frames:
+                        // `flush_pending_control_frames` serialises and flushes that
+                        // queue on the next writable pass. Writing the frame straight
+                        // into `self.zero` without `expect_write = Zero` left it there
+                        // unflushed (or wiped by the next WINDOW_UPDATE flush): the
+                        // backend never learnt the stream was cancelled and kept
+                        // counting it against its MAX_CONCURRENT_STREAMS.
+                        self.pending_rst_streams.push((id, H2Error::Cancel));
+                        self.rst_sent.insert(id);
+                        incr!(names::h2::FRAMES_TX_RST_STREAM);
+                        count!(metric_for_rst_stream_sent(H2Error::Cancel), 1);
+                        self.readiness.arm_writable();
                     }
                     // Retire the stream and invalidate expect_write/expect_read
                     // if they still reference this gid — the slot may be popped
